@@ -422,6 +422,9 @@ pub fn check(c: &Case) -> CheckResult {
         let sc = (xf_det(&c.ctm).abs()).sqrt();
         o.class_if(sc >= 1000.0, "ctm-scale>=1000");
         o.class_if(sc <= 0.05, "ctm-scale<=1/20");
+        let m = &c.ctm;
+        let (rx, ry) = ((m[0] as f64).hypot(m[1] as f64), (m[2] as f64).hypot(m[3] as f64));
+        o.class_if(rx.max(ry) >= 9.0 * rx.min(ry) && (m[4].abs() > 1000.0 || m[5].abs() > 1000.0), "anisotropic-ctm-far-from-the-user-origin");
     }
     o.class_if(tmin < 0.0, "t<0-seen");
     o.class_if(tmax > 1.0, "t>1-seen");
@@ -474,9 +477,43 @@ pub fn strategy(ctx: &Ctx) -> BoxedStrategy<Case> {
             // `zoom` times larger (a drawing in metres shown at 1:4096, or in device-independent units at 1/64)
             let zoom = prop_oneof![10 => Just(1.0f32), 1 => Just(4096.0f32), 1 => Just(65536.0f32), 1 => Just(256.0f32), 1 => Just(1.0f32 / 64.0)];
             let own = prop_oneof![3 => Just(None), 1 => xf_invertible(4.0).prop_map(Some)];
-            (Just((w, h)), src, alpha, prop_oneof![2 => Just(IDENT), 3 => xf_invertible(6.0)], zoom, own)
+            // anisotropic: one axis of user space stretched 10..40 times more than the other, looking at a place
+            // thousands of user units from the user-space origin along the squeezed axis (a chart with very
+            // different units on its axes, scrolled far)
+            let aniso = prop::option::weighted(0.08, (prop::sample::select(vec![10.0f32, 16.0, 25.0, 40.0]), any::<bool>(), any::<bool>(), 0.0f32..1.0, 0.5f32..2.0));
+            (Just((w, h)), src, alpha, prop_oneof![2 => Just(IDENT), 3 => xf_invertible(6.0)], zoom, own, aniso)
         })
-        .prop_map(|((w, h), mut src, alpha, mut ctm, z, mut own)| {
+        .prop_map(|((w, h), mut src, alpha, mut ctm, mut z, mut own, aniso)| {
+            if let Some((r, x_stretched, neg, f, k)) = aniso {
+                // user -> device: scale (k r, k) or (k, k r), then a translation that brings the far place back.
+                // The place is `d` device pixels from the user-space origin (d <= 3900: inside the working range)
+                // along the axis that is *not* stretched, i.e. d / k user units
+                let k = k.max(1.0);
+                let lo = (34000.0 / r).max(1000.0);
+                let d = (lo + f * (3900.0 - lo)) * if neg { -1.0 } else { 1.0 };
+                let (sx, sy) = if x_stretched { (k * r, k) } else { (k, k * r) };
+                let (ux, uy) = if x_stretched { (0.0, d / k) } else { (d / k, 0.0) };
+                ctm = [sx, 0.0, 0.0, sy, -ux * sx, -uy * sy];
+                // the generated gradient (user units around the origin) moves to that place, shape unchanged
+                let mv = |x: &mut f32, y: &mut f32| {
+                    *x += ux;
+                    *y += uy;
+                };
+                match &mut src {
+                    SrcSpec::Linear { x0, y0, x1, y1, .. } => {
+                        mv(x0, y0);
+                        mv(x1, y1);
+                    }
+                    SrcSpec::Radial { cx, cy, .. } | SrcSpec::Sweep { cx, cy, .. } => mv(cx, cy),
+                    SrcSpec::TwoCircle { x1, y1, x2, y2, .. } => {
+                        mv(x1, y1);
+                        mv(x2, y2);
+                    }
+                    _ => {}
+                }
+                z = 1.0;
+                own = None;
+            }
             if z != 1.0 {
                 // (the own transform maps zoomed user units to zoomed gradient units: its translation shrinks too)
                 if let Some(e) = own.as_mut() {
@@ -519,10 +556,10 @@ pub fn property(ctx: &Ctx) -> Property {
     let c = ctx.clone();
     Property {
         id: "C12",
-        rule: "cases: linear (extent >= 1 px), radial (r >= 1), two-circle (first circle strictly inside the second) and sweep gradients built with the Source::new_* constructors, a quarter of them with a further invertible transform of their own composed into the public Source variant by hand (elliptical radial gradients, sheared sweeps; the oracle maps the pixel centre through the inverse CTM and then through that transform); 1-5 stops at strictly increasing positions (gaps >= 0.02, ends not necessarily 0/1) with random unpremultiplied colours or probe ramps; Pad/Repeat/Reflect; global alpha; identity or any invertible CTM, optionally with user space zoomed (units 256, 4096 or 65536 times smaller, or 64 times larger, under a correspondingly scaled CTM); 4..24 px surfaces, rendered with a full-surface Src fill (in half of the cases after an empty layer group or a clear under a clip that come between set_transform and the draw; and again, Src and SrcOver, through a pixel-aligned clip path that cuts off the first columns: same colours inside, nothing outside; and once more with SrcOver into a layer group pushed under an offset clip rectangle, whose origin differs from the surface's). Oracle: f64 parameter t per pixel centre (through the inverse CTM) by the statement's definitions, colour = piecewise-linear interpolation of the unpremultiplied stops after the spread map, premultiplied and scaled by alpha; every channel must lie within 4/255 of the range that colour takes for t within 3/255 (+|t|/255 for two-circle and sweep) of the pixel's t; Pad pixels beyond an end all show one identical colour; two-circle pixels without admissible circle are transparent. Non-trivial: >=3 distinct colours on the surface and t spanning >= 0.25; distinct by hash of the case.",
+        rule: "cases: linear (extent >= 1 px), radial (r >= 1), two-circle (first circle strictly inside the second) and sweep gradients built with the Source::new_* constructors, a quarter of them with a further invertible transform of their own composed into the public Source variant by hand (elliptical radial gradients, sheared sweeps; the oracle maps the pixel centre through the inverse CTM and then through that transform); 1-5 stops at strictly increasing positions (gaps >= 0.02, ends not necessarily 0/1) with random unpremultiplied colours or probe ramps; Pad/Repeat/Reflect; global alpha; identity or any invertible CTM (one in twelve anisotropic, one axis stretched 10..40 times more than the other, looking at a place 1000..3900 device px from the user-space origin along the other axis), optionally with user space zoomed (units 256, 4096 or 65536 times smaller, or 64 times larger, under a correspondingly scaled CTM); 4..24 px surfaces, rendered with a full-surface Src fill (in half of the cases after an empty layer group or a clear under a clip that come between set_transform and the draw; and again, Src and SrcOver, through a pixel-aligned clip path that cuts off the first columns: same colours inside, nothing outside; and once more with SrcOver into a layer group pushed under an offset clip rectangle, whose origin differs from the surface's). Oracle: f64 parameter t per pixel centre (through the inverse CTM) by the statement's definitions, colour = piecewise-linear interpolation of the unpremultiplied stops after the spread map, premultiplied and scaled by alpha; every channel must lie within 4/255 of the range that colour takes for t within 3/255 (+|t|/255 for two-circle and sweep) of the pixel's t; Pad pixels beyond an end all show one identical colour; two-circle pixels without admissible circle are transparent. Non-trivial: >=3 distinct colours on the surface and t spanning >= 0.25; distinct by hash of the case.",
         assumptions: vec!["sweep pixels within 1.5 px of the centre or within 0.75 px of the angle-0 ray are not judged (angle discontinuity inside the pixel)"],
         parts: vec![part("render", 60_000, 1_000_000, move || strategy(&c), check)],
-        min_class_fraction: vec![("render", "src:linear", 0.15), ("render", "src:radial", 0.15), ("render", "src:twocircle", 0.15), ("render", "src:sweep", 0.15), ("render", "spread:reflect", 0.2), ("render", "t>1-seen", 0.3), ("render", "t<0-seen", 0.1), ("render", "linear:horizontal-right-to-left", 0.005), ("render", "linear:vertical", 0.01), ("render", "twocircle:focal-point", 0.02), ("render", "twocircle:centres-share-one-coordinate", 0.03), ("render", "ctm-scale>=1000", 0.05), ("render", "own-transform-in-the-variant", 0.1)],
+        min_class_fraction: vec![("render", "src:linear", 0.15), ("render", "src:radial", 0.15), ("render", "src:twocircle", 0.15), ("render", "src:sweep", 0.15), ("render", "spread:reflect", 0.2), ("render", "t>1-seen", 0.3), ("render", "t<0-seen", 0.1), ("render", "linear:horizontal-right-to-left", 0.005), ("render", "linear:vertical", 0.01), ("render", "twocircle:focal-point", 0.02), ("render", "twocircle:centres-share-one-coordinate", 0.03), ("render", "ctm-scale>=1000", 0.05), ("render", "own-transform-in-the-variant", 0.1), ("render", "anisotropic-ctm-far-from-the-user-origin", 0.04)],
         panic_is_violation: false,
     }
 }
